@@ -8,6 +8,7 @@
 //! (b) on another thread, (c) on a relocated, differently aligned copy.
 pub mod cmapgen;
 mod bitmapgen;
+mod aatgen;
 pub mod font;
 pub mod h_core;
 pub mod h_layout;
@@ -871,6 +872,19 @@ fn cmap_directed(ctx: &mut Ctx, r: &mut Runner, fonts: &[CorpusFont], seed: u64)
     let n_synth = ctx.budget(600, 6000);
     let real = base.map(|b| RealArgs::of(&b.data)).unwrap_or_default();
     let base_id = base.map(|b| b.id()).unwrap_or_else(|| "synthetic".into());
+    // synthetic AAT lookup tables (all six formats; huge segments, boundary value offsets)
+    for it in 0..ctx.budget(300, 3000) {
+        r.item += 1;
+        if !ctx.mine(r.item) {
+            continue;
+        }
+        let mut rng = Rng::derive(seed, "c01-aat-synth", it as u64);
+        let (desc, table, _queries) = aatgen::synth(&mut rng);
+        ctx.count(&format!("aat_synth:{}", desc.split(':').take(2).collect::<Vec<_>>().join(":")), 1);
+        let m = format!("aat-synth#{}:{}", it, desc);
+        let spec = Spec::Payload { tag: *b"aat_", real, cross: false, cfg: WalkCfg::mutant(40_000, None) };
+        exec(ctx, r, "inputs:aat-synth-payload", &base_id, &m, &table, &spec, nt(&base_id, "asp", &m));
+    }
     for it in 0..n_synth {
         r.item += 1;
         if !ctx.mine(r.item) {
